@@ -210,6 +210,20 @@ CLAIMS['C12'] = dict(
          'numerically or the polygon mask.',
     technique='exact vector algebra (dot/cross identities on component normal forms), constructor-tree wiring checks after def-use inlining')
 
+CLAIMS['C14'] = dict(
+    text='Decides structural necessary conditions for Caching1D/2D/3D: noninterference -- nothing stored into the persistent sample, '
+         'coefficient and flag arrays (nor into the local system that produces the coefficients) depends on the query coordinates, '
+         'only subscripts may (necessary for history independence); the cell flag is set after every coefficient store of that cell, '
+         'the wrapped function is sampled at grid nodes in argument order and stored normalised with (min, 1/delta), which the '
+         'coefficients undo; the out-of-range policy (index window -> cached, no_boundary_error -> wrapped function on the original '
+         'arguments, else ValueError); and the Hermite tables: every entry of the 4x4, 16x16 and 64x64 constraint matrices equals the '
+         'corresponding mixed derivative of the basis monomial of its column at the node, the right-hand sides are the node value and '
+         'the matching central differences, and the returned polynomial uses the same column-to-monomial map -- i.e. the cached '
+         'polynomial is the Hermite interpolant of the sampled nodes (equality at nodes, exactness for functions linear in each '
+         'coordinate, given an exact solve). Does not decide the floating-point solve, the Taylor re-expansion, or the error bound for '
+         'twice-differentiable functions.',
+    technique='taint (noninterference) analysis, statement ordering, guard dominance with chained comparisons, exact polynomial algebra on the constraint tables')
+
 # ---- everything not claimed above is pending / not applicable
 _pending = 'check not built yet in this session (see DESIGN.md build order); not claimed until it is'
 for _p in ['C%02d' % i for i in range(1, 21)]:
